@@ -26,7 +26,7 @@ def run(ctx, broken):
     st = r.report()
     st["rule"] = ("one circuit compiled under 6 labels (one byte changed, case, shorter, trailing NUL, empty) with every proof "
                   "shown to every other label's verifier; %d near-miss circuits (one selector, one wire, one gate more/fewer, "
-                  "public-input row moved, extra public input) cross-verified; per proof every public-input position set to "
+                  "public-input row moved, extra public input, extra ZERO-valued public input) cross-verified with the proof's and with the other verifier's public inputs; per proof every public-input position set to "
                   "0/1/-v/v+1/random, neighbour swaps, all truncations, two extensions, rotation; V3 and V2 proofs against "
                   "V1/V2/V3 verifiers. Expect error, never acceptance, never a panic; decision == Lean model verifier." % len(cs))
     return st
